@@ -176,7 +176,7 @@ def check(rep, an, tier):
                 CC.corner_map(rep, res, ent)
                 if l1:
                     CC.zero_rows(rep, res, ent)
-                R.rule_effect_free(rep, res, ent)
+                R.rule_effect_free(rep, res, ent, reg=_reg(an))
                 R.rule_purity(rep, res, ent)
     rep.advisory("l1 sampling draws in the L1-normalised image of ALL gamut vertices (the cone's cross-section) and rescales to l1; that set "
                  "equals the gamut's slice at total l1 only for small l1 — membership of l1-samples is not decided here (reported by an "
@@ -185,3 +185,8 @@ def check(rep, an, tier):
     rep.require("R-SIMPLEX", 10)
     rep.require("R-API", 5)
     rep.require("R-FORWARD", 10)
+
+
+def _reg(an):
+    from .C14 import registration_writes
+    return registration_writes(an)
